@@ -109,7 +109,8 @@ def run_map_part(chk, args):
         chk.cov["evaluations"] += s["evaluations"]
         chk.cov["distinct_nontrivial"] += s["nontrivial"]
     if not q and (only is None or "apalache" in only):
-        apalache_extra(chk)
+        import unbounded    # thorough-tier extra (Apalache inductive invariant, spec/ClientIDMap/ClientIDMapTyped.tla); can only add a note
+        unbounded.clientidmap_inductive(chk)
     chk.cov["rule"] = (chk.cov.get("rule", "") + " Map: a case is one sequence of Sets emitted by TLC with the abstract Get vector at every point; non-trivial = at some point "
                        "an id that has been set is absent again (forgotten).  Sanitiser: a case is one (base, decoration) class; non-trivial = the contract allows 'empty'.").strip()
     chk.assumptions += [
